@@ -113,6 +113,44 @@ theorem repair_exact (pi : Header → Option PixelInfo) (raw : RawHeader) (fileL
             simp [Header.mipmapCount, Header.arraySize, hx0] at hchg
 
 
+/-- **A successful repair is a fixed point**: when the file-length repair reports a header whose layout
+matches the file (second component `true`), repairing that header again with the same file length
+returns it unchanged — a repaired header is a consistent header, so re-reading a file whose header was
+rewritten from the repaired value changes nothing (the length-independent part of `consistent_untouched`
+applied to the repair's own output). `…_partial`: the unmatched case (second component `false`, the
+header is returned as parsed apart from array size 0 → 1) is not covered by this statement. -/
+theorem repair_idempotent_of_match_partial (pi : Header → Option PixelInfo) (hs : PiStable pi)
+    (fileLen : Nat) (a : Header) (hm : (a.fixBasedOnFileLen pi (some fileLen)).2 = true) :
+    (a.fixBasedOnFileLen pi (some fileLen)).1.fixBasedOnFileLen pi (some fileLen) =
+      ((a.fixBasedOnFileLen pi (some fileLen)).1, true) := by
+  have hcore := Header.fixBasedOnFileLen_core pi (some fileLen) a
+  have hbl := Header.byteLen_of_core hcore
+  have hpi : pi (a.fixBasedOnFileLen pi (some fileLen)).1 = pi a :=
+    hs _ _ (by rw [← Header.fmtKey_core, hcore, Header.fmtKey_core])
+  generalize hr : a.fixBasedOnFileLen pi (some fileLen) = r at *
+  unfold Header.fixBasedOnFileLen at hr
+  simp only at hr
+  cases hsub : ckSub fileLen (4 + a.byteLen) with
+  | none => rw [hsub] at hr; subst hr; cases hm
+  | some expected =>
+    rw [hsub] at hr
+    simp only at hr
+    cases hpx : pi a with
+    | none => rw [hpx] at hr; subst hr; cases hm
+    | some px =>
+      rw [hpx] at hr
+      simp only at hr
+      have ht : Header.testLen px expected r.1 = true := by
+        rw [← hr]; exact Header.fixCore_true (by rw [hr]; exact hm)
+      unfold Header.fixBasedOnFileLen
+      simp only [hbl, hsub, hpi, hpx]
+      exact Header.fixCore_of_test ht
+
+/-- non-vacuity: a cube map written with array size 6 (defect) is repaired to array size 1 with a match,
+and repairing the result again is the identity -/
+example : ((Header.dx10 { (Dx10Header.new .cubeMap 16 16 0 71) with arraySize := 6 }).fixBasedOnFileLen
+      pixelInfoOf (some 916)).2 = true := by decide
+
 /-- the pinned pixel-info detection looks at the format only -/
 theorem pixelInfoOf_stable : PiStable pixelInfoOf := by
   intro a b hk
